@@ -205,7 +205,8 @@ theorem closures_regenerated :
     produceClosureGen.all (fun vp => match specOf "produce" with
                                      | some o => stepsEq vp.2 (o.parse vp.1)
                                      | none => false) = true ∧
-    produceClosureGen.map (·.1) = versionsOf "writeCompressedMessages" := by decide
+    produceClosureGen.map (·.1) = versionsOf "writeCompressedMessages" ∧
+    stepsEq apiVersionsParseGen apiVersionsParse = true ∧ apiVersionsErrAfter = true := by decide
 
 /-! `stepsEq` is sound: it only accepts equal programs, so the theorems about the transcriptions are theorems about
 the regenerated programs -/
